@@ -577,6 +577,9 @@ def or_(ex, a, b):
 
 def _eq_sym_const(ex, s, c):
     k = s.kind
+    if isinstance(c, ClassVal) and c.ci == ('ext', 'inspect.Parameter.empty') and isinstance(k, K.Opt):
+        # a parameter default: None of the Opt kind stands for "no default" (inspect.Parameter.empty)
+        return Sym(K.Bool, k.is_none(s.t))
     if isinstance(c, Ref):
         cell = ex.run.cell(c)
         if isinstance(cell, HList) and isinstance(k, K.Seq):
